@@ -370,6 +370,12 @@ def _build(spec, ps, h):
         h.objectives.append(obj)
         tgt = getattr(obj, "target", None)
         h.obj_ind_names.append(tgt.name if hasattr(tgt, "_indicator_variable") else None)
+    # the unknown the optimisers work on: the single objective's target, or - several
+    # objectives - the weighted sum the solver names "EquivalentSingleObjective"
+    if len(h.objectives) == 1:
+        h.vars["OBJ"] = h.objectives[0]._target
+    elif len(h.objectives) > 1:
+        h.vars["OBJ"] = z3.Int("EquivalentSingleObjective")
 
 
 def _needs_indicator(c):
